@@ -444,4 +444,106 @@ theorem shlL_spec {cap : Nat} {x : Limbs} (h : Normalized x) (hne : x ≠ []) (h
         have e : valL x * (2 ^ (n % 64) * B64 ^ (n / 64)) = valL x * 2 ^ (n % 64) * B64 ^ (n / 64) := by ring
         omega
 
+/-! ## `normalize` -/
+
+theorem normalizeL_snoc (xs : Limbs) (a : Nat) :
+    normalizeL (xs ++ [a]) = if a = 0 then normalizeL xs else xs ++ [a] := by
+  unfold normalizeL
+  rw [List.reverse_append, List.reverse_singleton, List.singleton_append, List.dropWhile_cons]
+  by_cases h : a = 0
+  · simp [h]
+  · simp [h]
+
+/-- **`normalize`** strips the zero limbs at the top -/
+theorem normalizeL_spec : ∀ (n : Nat) (x : Limbs), x.length = n → LimbsOk x →
+    Normalized (normalizeL x) ∧ valL (normalizeL x) = valL x ∧ (normalizeL x).length ≤ x.length
+  | 0, x, hx, _ => by
+    have := List.eq_nil_of_length_eq_zero hx
+    subst this
+    exact ⟨by unfold normalizeL; simpa using normalized_nil, rfl, Nat.le_refl _⟩
+  | n + 1, x, hx, ok => by
+    rcases eq_nil_or_snoc x with h | ⟨xs, a, rfl⟩
+    · subst h; simp at hx
+    simp only [List.length_append, List.length_singleton, Nat.add_right_cancel_iff] at hx
+    obtain ⟨oxs, oa⟩ := limbsOk_append.mp ok
+    rw [normalizeL_snoc]
+    by_cases h : a = 0
+    · rw [if_pos h]
+      obtain ⟨i1, i2, i3⟩ := normalizeL_spec n xs hx oxs
+      refine ⟨i1, ?_, by simp; omega⟩
+      rw [i2, valL_append, h, Nat.mul_zero, Nat.add_zero]
+    · rw [if_neg h]
+      refine ⟨⟨ok, ?_⟩, rfl, Nat.le_refl _⟩
+      intro l hl
+      simp at hl
+      rw [← hl]; exact h
+
+/-! ## `large_quorem` -/
+
+/-- one limb of the multiply-subtract loop, in wrapping 128-bit arithmetic -/
+theorem sub_limb (xj P bin : Nat) (hx : xj < 2 ^ 64) (hP : P < 2 ^ 128) (hb : bin ≤ 1) :
+    (xj + 2 ^ 128 - P % 2 ^ 64 + 2 ^ 128 - bin) % 2 ^ 128 % 2 ^ 64 + P % 2 ^ 64 + bin =
+      xj + 2 ^ 64 * ((xj + 2 ^ 128 - P % 2 ^ 64 + 2 ^ 128 - bin) % 2 ^ 128 / 2 ^ 64 % 2) ∧
+    (xj + 2 ^ 128 - P % 2 ^ 64 + 2 ^ 128 - bin) % 2 ^ 128 / 2 ^ 64 % 2 ≤ 1 := by
+  have h64 : (2 : Nat) ^ 64 = 18446744073709551616 := by norm_num
+  have h128 : (2 : Nat) ^ 128 = 340282366920938463463374607431768211456 := by norm_num
+  rw [h64, h128] at *
+  omega
+
+/-- the multiplier of a pass of the loop: `q`, or `1` for the plain subtraction -/
+def mulOf (mul : Option Nat) : Nat := match mul with | some q => q | none => 1
+
+theorem sub_step (m yj carry xj borrow t R k xsV ysV Bn : Nat)
+    (s1 : t % B64 + (yj * m + carry) % B64 + borrow = xj + B64 * (t / B64 % 2))
+    (e1 : R + m * ysV + (yj * m + carry) / B64 + t / B64 % 2 = xsV + Bn * k) :
+    t % B64 + B64 * R + m * (yj + B64 * ysV) + carry + borrow = xj + B64 * xsV + Bn * B64 * k := by
+  have hdm := Nat.div_add_mod (yj * m + carry) B64
+  have a1 : B64 * (R + m * ysV + (yj * m + carry) / B64 + t / B64 % 2) = B64 * (xsV + Bn * k) := by rw [e1]
+  have a2 : m * (yj + B64 * ysV) = yj * m + B64 * (m * ysV) := by ring
+  have a3 : B64 * (R + m * ysV + (yj * m + carry) / B64 + t / B64 % 2) =
+      B64 * R + B64 * (m * ysV) + B64 * ((yj * m + carry) / B64) + B64 * (t / B64 % 2) := by ring
+  have a4 : B64 * (xsV + Bn * k) = B64 * xsV + Bn * B64 * k := by ring
+  omega
+
+theorem subGo_spec (mul : Option Nat) (hm : mulOf mul < B64) : ∀ (xs ys : Limbs) (borrow carry : Nat),
+    xs.length = ys.length → LimbsOk xs → LimbsOk ys → borrow ≤ 1 → carry < B64 →
+    ∃ k, valL (subGo mul xs ys borrow carry) + mulOf mul * valL ys + carry + borrow =
+        valL xs + B64 ^ xs.length * k ∧
+      (subGo mul xs ys borrow carry).length = xs.length ∧ LimbsOk (subGo mul xs ys borrow carry)
+  | [], [], borrow, carry, _, _, _, _, _ => by
+    exact ⟨carry + borrow, by simp [subGo, valL], rfl, limbsOk_nil⟩
+  | [], _ :: _, _, _, h, _, _, _, _ => by simp at h
+  | _ :: _, [], _, _, h, _, _, _, _ => by simp at h
+  | xj :: xs, yj :: ys, borrow, carry, hl, ox, oy, hb, hc => by
+    obtain ⟨hxj, oxs⟩ := limbsOk_cons.mp ox
+    obtain ⟨hyj, oys⟩ := limbsOk_cons.mp oy
+    simp only [List.length_cons, Nat.add_right_cancel_iff] at hl
+    have hPlt : yj * mulOf mul + carry < 2 ^ 128 := by
+      have h1 : yj * mulOf mul ≤ (B64 - 1) * (B64 - 1) := Nat.mul_le_mul (by omega) (by omega)
+      have : (B64 - 1) * (B64 - 1) + B64 ≤ 2 ^ 128 := by unfold B64; decide
+      omega
+    have hunf : subGo mul (xj :: xs) (yj :: ys) borrow carry =
+        ((xj + 2 ^ 128 - (yj * mulOf mul + carry) % B64 + 2 ^ 128 - borrow) % 2 ^ 128 % B64) ::
+          subGo mul xs ys ((xj + 2 ^ 128 - (yj * mulOf mul + carry) % B64 + 2 ^ 128 - borrow) % 2 ^ 128 / B64 % 2)
+            ((yj * mulOf mul + carry) / B64) := by
+      cases mul with
+      | none =>
+        have hP' : yj + carry < 2 ^ 128 := by simpa [mulOf] using hPlt
+        simp only [subGo, mulOf, Nat.mul_one, Nat.mod_eq_of_lt hP']
+      | some q =>
+        have hP' : yj * q + carry < 2 ^ 128 := by simpa [mulOf] using hPlt
+        simp only [subGo, mulOf, Nat.mod_eq_of_lt hP']
+    rw [hunf]
+    obtain ⟨s1, s2⟩ := sub_limb xj (yj * mulOf mul + carry) borrow hxj hPlt hb
+    rw [← B64_eq] at s1 s2
+    have hcout : (yj * mulOf mul + carry) / B64 < B64 := by
+      rw [Nat.div_lt_iff_lt_mul B64_pos]
+      have : B64 * B64 = 2 ^ 128 := by unfold B64; rw [← Nat.pow_add]
+      omega
+    obtain ⟨k, e1, e2, e3⟩ := subGo_spec mul hm xs ys _ _ hl oxs oys s2 hcout
+    refine ⟨k, ?_, by simp only [List.length_cons]; rw [e2], limbsOk_cons.mpr ⟨Nat.mod_lt _ B64_pos, e3⟩⟩
+    simp only [valL, List.length_cons]
+    rw [Nat.pow_succ]
+    exact sub_step _ _ _ _ _ _ _ _ _ _ _ s1 e1
+
 end LexVerif.Proof.Slow
